@@ -2,6 +2,7 @@ import SnaxVerif.Lemmas.Tsl
 import SnaxVerif.Lemmas.TslResolve
 import SnaxVerif.Lemmas.TslStrided
 import SnaxVerif.Lemmas.TslDeep2
+import SnaxVerif.Lemmas.TslIdem
 /-!
 # C10 — a tiled-strided layout means the same thing everywhere
 
@@ -490,6 +491,32 @@ theorem parse_print_zero_fails :
     parse true (printLayout ⟨[[⟨some 0, some 2⟩]], some 0⟩ ++ [.greater]) = .ok ⟨[[⟨none, some 2⟩]], some 0⟩ := by
   decide +kernel
 
+/-! ## Third deepening round -/
+
+/-- **`canonicalize()` is idempotent, for every layout — dynamic (`?`) steps and bounds, zero entries and unit
+bounds included.** The canonical form is a normal form (`nfT`: no droppable unit bound, no adjacent pair passing
+the squash test), so every consumer that canonicalises again (the printer of `set-memory-layout`, C09's chosen
+layout, `canonicalize_dynamic_partial`'s resolved form) sees the same layout text. No hypothesis. -/
+theorem canonicalize_idempotent (l : Layout) : l.canonicalize.canonicalize = l.canonicalize := by
+  simp only [Layout.canonicalize, List.map_map]
+  congr 1
+  apply List.map_congr_left
+  intro t _
+  exact canonT_idem t
+
+/-- … and every dimension of the canonical form is in normal form. -/
+theorem canonicalize_normal_form (l : Layout) : ∀ t ∈ l.canonicalize.ts, nfT t = true := by
+  intro t ht
+  simp only [Layout.canonicalize, List.mem_map] at ht
+  obtain ⟨t0, _, rfl⟩ := ht
+  exact nfT_canonT t0
+
+/-- a single pass is needed: the input of the non-vacuity example below is not a fixed point -/
+theorem canonicalize_not_identity :
+    ¬ ∀ l : Layout, l.canonicalize = l := by
+  intro h
+  exact absurd (h ⟨[[⟨some 32, some 2⟩, ⟨some 8, some 1⟩, ⟨some 4, some 4⟩, ⟨some 1, some 4⟩]], none⟩) (by decide +kernel)
+
 /-! ## Non-vacuity: the upstream fixture `[2,4]->(32,4), [2,4]->(16,1)` and a layout with a unit bound -/
 
 example : SPos [[⟨32, 2⟩, ⟨4, 4⟩], [⟨16, 2⟩, ⟨1, 4⟩]] := by decide +kernel
@@ -510,6 +537,8 @@ example : stepsAtStrided (fromStrides [none, some 1] [[none, some 4], [none, som
     = .ok [[640, 160], [16, 4]] := by decide +kernel
 example : Printable ⟨[[⟨none, none⟩, ⟨some 4, some 4⟩], [⟨some 16, some 2⟩, ⟨some 1, some 1⟩]], some (-5)⟩ := by
   decide
+example : (Layout.canonicalize ⟨[[⟨none, none⟩, ⟨some 8, some 1⟩, ⟨some 4, some 2⟩, ⟨some 1, some 4⟩]], some 0⟩)
+    = ⟨[[⟨none, none⟩, ⟨some 1, some 8⟩]], some 0⟩ := by decide +kernel
 example : subviewPtr true 1 4096 [[⟨some 128, some 2⟩, ⟨some 8, some 8⟩], [⟨some 64, some 2⟩, ⟨some 1, some 8⟩]]
     [some 8, none] [0] = .ok (4096 + 128) := by decide +kernel
 
